@@ -4,17 +4,19 @@
 // unless the build tag `verif` is set, and even then contains no executable code).
 package conversion
 
-//@ spec le64at(b []byte, o int) uint64 = uint64(b[o]) | uint64(b[o+1])<<8 | uint64(b[o+2])<<16 | uint64(b[o+3])<<24 | uint64(b[o+4])<<32 | uint64(b[o+5])<<40 | uint64(b[o+6])<<48 | uint64(b[o+7])<<56
-//@ spec le32at(b []byte, o int) uint32 = uint32(b[o]) | uint32(b[o+1])<<8 | uint32(b[o+2])<<16 | uint32(b[o+3])<<24
+//@ spec le64at(b []byte, o int) uint64 = uint64(b[o]) + uint64(b[o+1])<<8 + uint64(b[o+2])<<16 + uint64(b[o+3])<<24 + uint64(b[o+4])<<32 + uint64(b[o+5])<<40 + uint64(b[o+6])<<48 + uint64(b[o+7])<<56
+//@ spec le32at(b []byte, o int) uint32 = uint32(b[o]) + uint32(b[o+1])<<8 + uint32(b[o+2])<<16 + uint32(b[o+3])<<24
 
 //@ func NodeKey
 //@   property C19
+//@   pure
 //@   arith bv
 //@   ensures len(result) == 10 && result[0] == 'n' && result[9] == suffix
 //@   ensures le64at(result, 1) == id
 
 //@ func NodeIdFromKey
 //@   property C19
+//@   pure
 //@   arith bv
 //@   ensures result1 == (len(key) == 10 && key[0] == 'n' && key[9] == suffix)
 //@   ensures result1 ==> result0 == le64at(key, 1)
@@ -22,28 +24,33 @@ package conversion
 
 //@ func Uint64ToBytes
 //@   property C19
+//@   pure
 //@   arith bv
 //@   ensures len(result) == 8 && le64at(result, 0) == i
 
 //@ func BytesToUint64
 //@   property C19
+//@   pure
 //@   arith bv
 //@   requires len(b) >= 8
 //@   ensures result == le64at(b, 0)
 
 //@ func SingleFloat32ToBytes
 //@   property C19
+//@   pure
 //@   arith bv
 //@   ensures len(result) == 4 && sameFloat(f32frombits(le32at(result, 0)), f)
 
 //@ func BytesToSingleFloat32
 //@   property C19
+//@   pure
 //@   arith bv
 //@   requires len(b) >= 4
 //@   ensures sameFloat(result, f32frombits(le32at(b, 0)))
 
 //@ func float32ToBytesSafe
 //@   property C19
+//@   pure
 //@   arith bv
 //@   ensures len(result) == len(f)*4
 //@   ensures forall(k, 0, len(f), sameFloat(f32frombits(le32at(result, k*4)), f[k]))
@@ -52,6 +59,7 @@ package conversion
 
 //@ func bytesToFloat32Safe
 //@   property C19
+//@   pure
 //@   arith bv
 //@   ensures len(result) == len(b)/4
 //@   ensures forall(k, 0, len(b)/4, sameFloat(result[k], f32frombits(le32at(b, k*4))))
@@ -60,6 +68,7 @@ package conversion
 
 //@ func EdgeListToBytes
 //@   property C19
+//@   pure
 //@   arith bv
 //@   ensures len(result) == len(edges)*8
 //@   ensures forall(k, 0, len(edges), le64at(result, k*8) == edges[k])
@@ -68,6 +77,7 @@ package conversion
 
 //@ func BytesToEdgeList
 //@   property C19
+//@   pure
 //@   arith bv
 //@   ensures len(result) == len(b)/8
 //@   ensures forall(k, 0, len(b)/8, result[k] == le64at(b, k*8))
